@@ -177,8 +177,8 @@ func genC16(d *RunDesc, tier string) {
 				}
 				ops = append(ops, op)
 			default:
-				fn := wl.intn(len(lookups))
-				ops = append(ops, Op{K: "lkp", Fn: fn, SArg: pick(wl, lookupArgs), IArg: wl.intn(7), Lang: wl.intn(len(langs))})
+				fn := wl.intn(nLookups())
+				ops = append(ops, Op{K: "lkp", Fn: fn, SArg: pick(wl, lookupArgs), IArg: wl.intn(63), Lang: wl.intn(len(langs))})
 			}
 		}
 		d.Tasks = append(d.Tasks, ops)
